@@ -67,9 +67,9 @@ func (e *EncryptionKeys) String() string {
 func PSKPreMasterSecret(psk []byte) []byte {
 	pskLen := uint16(len(psk)) //nolint:gosec // G115
 
-	out := append(make([]byte, 2+pskLen+2), psk...)
+	out := append(make([]byte, 2+len(psk)+2), psk...)
 	binary.BigEndian.PutUint16(out, pskLen)
-	binary.BigEndian.PutUint16(out[2+pskLen:], pskLen)
+	binary.BigEndian.PutUint16(out[2+len(psk):], pskLen)
 
 	return out
 }
